@@ -234,6 +234,11 @@ func (c *Context) ask(system bool, recipient vivid.ActorRef, message vivid.Messa
 		c.system.removeFuture(agentRef)
 	})
 	c.system.appendFuture(agentRef, futureIns)
+	// 超时定时器在 NewFuture 中就已启动：若它在注册之前触发，closer 的移除发生在注册之前，
+	// 已完成的 Future 会永久留在注册表中；此处补一次移除（removeFuture 是幂等的）
+	if futureIns.Closed() {
+		c.system.removeFuture(agentRef)
+	}
 
 	envelop := mailbox.NewEnvelop(system, agentRef.ref, recipient, message)
 	receiverMailbox := c.system.findMailbox(recipient.(*Ref))
